@@ -59,6 +59,10 @@ var c16Shared = map[string]string{
 	// a callee that fails at run time for about half of the points: error paths release pooled objects too
 	"usefail.p": "add_key(b1, 1)\nif n % 2 == 0 {\n  use(\"mayfail.p\")\n}\nuse(\"mayfail.p\")\nadd_key(b2, 2)\n",
 	"mayfail.p": "l = [10, 20, 30]\nadd_key(seen_n, n)\nif n >= 25 {\n  add_key(picked, l[n])\n}\nuse(\"lib2.p\")\n",
+	// scripts with 3, 5 and 6 use() call sites (the loaded script's call-site list then has spare capacity)
+	"use3.p": "use(\"lib2.p\")\nif n > 10 {\n  use(\"lib2.p\")\n}\nuse(\"lib2.p\")\n",
+	"use5.p": "use(\"lib2.p\")\nuse(\"lib2.p\")\nfor i = 0; i < 2; i = i + 1 {\n  use(\"lib2.p\")\n}\nuse(\"use3.p\")\nuse(\"lib2.p\")\n",
+	"use6.p": "use(\"lib2.p\")\nuse(\"lib2.p\")\nuse(\"lib2.p\")\nuse(\"lib2.p\")\nuse(\"lib2.p\")\nuse(\"use5.p\")\n",
 	"lib2.p": "add_key(from_lib2, len(\"héllo\"))\nfor i = 0; i < 3; i = i + 1 {\n  add_key(cnt, i)\n}\n",
 	"mix.p":  "xml(doc, \"/a/b\", xb)\nsql_cover(q)\ndefault_time(ts, \"Asia/Tokyo\")\nj = load_json(js)\nadd_key(jl, len(j[\"a\"]))\nl = [1, 2, 3, 4, 5]\nadd_key(sl, l[::-2])\ns = \"\"\nfor e in j[\"a\"] {\n  if e == 2 { continue }\n  s = s + \"x\"\n}\nadd_key(s)\nuppercase(verb)\ntrim(pad)\nurl_decode(u)\ncast(n, \"float\")\nset_tag(host)\nrename(renamed, msg2)\nstrfmt(f, \"%v-%s\", 1, verb)\n",
 }
@@ -108,7 +112,7 @@ func (k c16) Run(c *mon.Ctx, workload string, i int64) {
 		c.Violate("shared-set-rejected", fmt.Sprint(errs), nil)
 		return
 	}
-	runnable := []string{"grok.p", "use.p", "mix.p", "lib2.p", "usefail.p", "usefail.p"}
+	runnable := []string{"grok.p", "use.p", "mix.p", "lib2.p", "usefail.p", "usefail.p", "use3.p", "use5.p", "use6.p"}
 	// generated sources for the parsers
 	var genSrcs []string
 	for j := 0; j < 20; j++ {
@@ -228,7 +232,7 @@ func (k c16) Run(c *mon.Ctx, workload string, i int64) {
 						name := runnable[r.Intn(len(runnable))]
 						ps := r.Int63n(nPoints)
 						kind := 2
-						if name == "use.p" || name == "usefail.p" {
+						if strings.HasPrefix(name, "use") {
 							kind = 3
 						}
 						note(kind)
